@@ -152,7 +152,7 @@ class Passive(Compiler):
             modes = [modes_label.ind for modes_label in operations.reg]
             used_modes.append(modes)
 
-        used_modes = list(set(item for sublist in used_modes for item in sublist))
+        used_modes = sorted(set(item for sublist in used_modes for item in sublist))
 
         # dictionary mapping the used modes to consecutive non-negative integers
         dict_indices = {used_modes[i]: i for i in range(len(used_modes))}
@@ -166,6 +166,10 @@ class Passive(Compiler):
             name = operations.op.__class__.__name__
             params = par_evaluate(operations.op.p)
             modes = [modes_label.ind for modes_label in operations.reg]
+            dagger = getattr(operations.op, "dagger", False)
+            if dagger and name in ("Rgate", "BSgate"):
+                # the inverse of these gates is obtained by negating the first parameter
+                params[0] = -params[0]
             if name == "Rgate":
                 G = np.exp(1j * params[0])
                 T = _apply_one_mode_gate(G, T, dict_indices[modes[0]])
@@ -201,6 +205,8 @@ class Passive(Compiler):
                 v = np.exp(1j * params[0])
                 u = np.exp(1j * params[1])
                 U = 0.5 * np.array([[u * (v - 1), 1j * (1 + v)], [1j * u * (1 + v), 1 - v]])
+                if dagger:
+                    U = U.conj().T
                 T = _apply_two_mode_gate(U, T, dict_indices[modes[0]], dict_indices[modes[1]])
             elif name == "sMZgate":
                 exp_sigma = np.exp(1j * (params[0] + params[1]) / 2)
@@ -208,6 +214,8 @@ class Passive(Compiler):
                 U = exp_sigma * np.array(
                     [[np.sin(delta), np.cos(delta)], [np.cos(delta), -np.sin(delta)]]
                 )
+                if dagger:
+                    U = U.conj().T
                 T = _apply_two_mode_gate(U, T, dict_indices[modes[0]], dict_indices[modes[1]])
 
         ord_reg = [r for r in list(registers) if r.ind in used_modes]
